@@ -99,7 +99,27 @@ pub struct CaseInfo {
     pub nontrivial: bool,
 }
 
+/// C13 with a two-stage verdict: the tight oracle sizes the rounding allowance and the settle horizon from the time
+/// the statement says is in effect; a case it rejects is re-judged with the allowance and horizon of the slowest legal
+/// setting (10 s). Only a case that fails both is a C13 violation - behaviour that is merely slower than the time
+/// setting suggests is C14's business, not C13's.
 pub fn run_c13(case: &GlideCase, budget: u64, stats: &mut Stats) -> Result<CaseInfo, Failure> {
+    match run_c13_with(case, budget, stats, false) {
+        Ok(i) => Ok(i),
+        Err(tight) => {
+            let mut scratch = Stats::default();
+            match run_c13_with(case, budget, &mut scratch, true) {
+                Ok(_) => {
+                    stats.count("label.tight_oracle_alarm_explained_by_a_slower_time_in_effect", 1);
+                    Ok(CaseInfo { nontrivial: false })
+                }
+                Err(_) => Err(tight),
+            }
+        }
+    }
+}
+
+fn run_c13_with(case: &GlideCase, budget: u64, stats: &mut Stats, robust: bool) -> Result<CaseInfo, Failure> {
     let fs = case.fs as f64;
     let mut g = GlideProcessor::new(case.fs);
     let mut cands = Cands::fresh();
@@ -157,7 +177,7 @@ pub fn run_c13(case: &GlideCase, budget: u64, stats: &mut Stats) -> Result<CaseI
             n += 1;
             lo = lo.min(x as f64);
             hi = hi.max(x as f64);
-            let alpha = cands.alpha(fs);
+            let alpha = if robust { alpha_lb(10.0, fs) } else { cands.alpha(fs) };
             res.step(alpha, x, y);
             let e = res.e;
             let yy = y as f64;
@@ -223,7 +243,8 @@ pub fn run_c13(case: &GlideCase, budget: u64, stats: &mut Stats) -> Result<CaseI
                 }
                 // (3) settles
                 let held_s = (n - hold_start_n) as f64 / fs;
-                if held_s >= cands.settle_s(fs) {
+                let settle_s = if robust { 30.0 } else { cands.settle_s(fs) };
+                if held_s >= settle_s {
                     let allowed = 0.01 * hold_start_err + 2.0 * e;
                     settle_checks += 1;
                     if allowed > 0.0 {
@@ -262,6 +283,16 @@ pub fn run_c13(case: &GlideCase, budget: u64, stats: &mut Stats) -> Result<CaseI
 
 // ------------------------------------------------------------------------------------------------ C14
 
+/// a processor on which the time `c` is in effect under every reading of the statement: two calls, each farther than the
+/// dead band from whatever is in effect before it (a fresh processor responds like time 0, so a single first call with
+/// c < 0.05 s could legitimately be ignored)
+pub fn processor_with_time(fs: f32, c: f32) -> GlideProcessor {
+    let mut g = GlideProcessor::new(fs);
+    g.set_time(c + 5.0);
+    g.set_time(c);
+    g
+}
+
 #[derive(Debug, Clone, Serialize, Deserialize, PartialEq)]
 pub enum C14Case {
     /// fresh processor, set_time(t) with t*fs >= 100, settle at `base`, step by `delta`
@@ -288,8 +319,7 @@ pub fn run_c14(case: &C14Case, stats: &mut Stats) -> Result<CaseInfo, Failure> {
         C14Case::Step { fs, t, base, delta } => {
             let fsd = *fs as f64;
             let n = *t as f64 * fsd;
-            let mut g = GlideProcessor::new(*fs);
-            g.set_time(*t);
+            let mut g = processor_with_time(*fs, *t);
             let te = (*t as f64).min(10.0);
             let alpha = alpha_lb(te, fsd);
             let mut res = Res::new();
@@ -347,8 +377,7 @@ pub fn run_c14(case: &C14Case, stats: &mut Stats) -> Result<CaseInfo, Failure> {
         }
         C14Case::Fast { fs, t, base, delta } => {
             let fsd = *fs as f64;
-            let mut g = GlideProcessor::new(*fs);
-            g.set_time(*t);
+            let mut g = processor_with_time(*fs, *t);
             let alpha = alpha_lb(0.0, fsd);
             let mut res = Res::new();
             let y0 = if *base != 0.0 { settle_at(&mut g, &mut res, alpha, *base, 40) } else { 0.0 };
@@ -377,10 +406,8 @@ pub fn run_c14(case: &C14Case, stats: &mut Stats) -> Result<CaseInfo, Failure> {
         }
         C14Case::Long { fs, t, delta, samples } => {
             let fsd = *fs as f64;
-            let mut a = GlideProcessor::new(*fs);
-            let mut b = GlideProcessor::new(*fs);
-            a.set_time(*t);
-            b.set_time(10.0);
+            let mut a = processor_with_time(*fs, *t);
+            let mut b = processor_with_time(*fs, 10.0);
             let alpha = alpha_lb(10.0, fsd);
             let mut res = Res::new();
             for i in 0..*samples {
@@ -435,11 +462,7 @@ pub fn run_c14(case: &C14Case, stats: &mut Stats) -> Result<CaseInfo, Failure> {
             let mut refs: Vec<(f64, GlideProcessor, bool)> = cands
                 .0
                 .iter()
-                .map(|&c| {
-                    let mut r = GlideProcessor::new(*fs);
-                    r.set_time(c as f32);
-                    (c, r, true)
-                })
+                .map(|&c| (c, processor_with_time(*fs, c as f32), true))
                 .collect();
             let longest = cands.0.iter().cloned().fold(0.0, f64::max).min(10.0);
             let n = ((longest * fsd).ceil() as u64).clamp(16, 20_000);
